@@ -2,9 +2,10 @@ import FordModel.Proto
 import FordModel.Path
 import FordModel.Nav
 import FordModel.Url
+import FordModel.StrLink
 import FordModel.Generated.C09
 namespace Ford
-open Proto Ford.Path Ford.Nav Ford.Url Ford.Generated.C09
+open Proto Ford.Path Ford.Nav Ford.Url Ford.StrLink Ford.Generated.C09
 
 namespace C09D
 
@@ -70,6 +71,25 @@ def dispatchC09 : List Str → Option (List Str)
     else if cmd == s "c09.navcheck" then
       some (s "ok" :: navTables.navConds.map fun e =>
         e.tpl ++ '|' :: targetStr e.target ++ '|' :: (if entryOk navTables e then ['1'] else ['0']))
+    else if cmd == s "c09.strlink" then
+      -- flag ("1" / "0" / "none"), number of chain nodes, 5 fields per node, then the shape fields
+      match args with
+      | flag :: k :: fs =>
+        let n := 5 * natOf k
+        let chain := nodesOf (fs.take n)
+        let sh := shapeOf (fs.drop n)
+        let fl : Option Bool := if flag == ['1'] then some true else if flag == ['0'] then some false else none
+        let vis : Str := match chain with
+          | nd :: _ => (match Url.lookup nd.cls visTables.visInit with
+                        | some c => if eval sh c then ['1'] else ['0']
+                        | none => s "dyn")
+          | [] => s "dyn"
+        some [ (if strEmitsLink urlTables visTables sh chain fl then ['1'] else ['0']), vis ]
+      | _ => some [s "bad-request"]
+    else if cmd == s "c09.strcheck" then
+      some (s "ok" :: visTables.listClass.map fun e =>
+        e.1 ++ '|' :: e.2 ++ '|' :: (if isParentClass urlTables e.2 then ['1'] else ['0']) ++ '|' ::
+          (if listOk navTables visTables e then ['1'] else ['0']))
     else if cmd == s "c09.doclink" then
       match args with
       | [base, cd, cs, td, ts] =>
